@@ -38,6 +38,15 @@ type Solver struct {
 	TimeoutMs              int
 	Trace                  io.Writer
 	dead                   bool
+
+	// fallback: a second process used one-shot ((reset) + cone of influence +
+	// check-sat) when the incremental core does not answer within FastMs.
+	FastMs    int
+	fb        *exec.Cmd
+	fbIn      io.WriteCloser
+	fbOut     *bufio.Reader
+	NFallback int
+	FallbackKind string
 }
 
 // NewSolver starts solver kind: "z3" (default /usr/bin/z3), "z3-new", "cvc5".
@@ -66,12 +75,12 @@ func NewSolver(f *Factory, kind string, timeoutMs int) (*Solver, error) {
 	if err := cmd.Start(); err != nil {
 		return nil, err
 	}
-	s := &Solver{F: f, cmd: cmd, in: in, out: bufio.NewReaderSize(outp, 1<<20), defined: map[int]bool{}, Name: kind, TimeoutMs: timeoutMs}
+	s := &Solver{F: f, cmd: cmd, in: in, out: bufio.NewReaderSize(outp, 1<<20), defined: map[int]bool{}, Name: kind, TimeoutMs: timeoutMs, FastMs: 250}
 	s.send("(set-option :print-success false)")
 	s.send("(set-option :global-declarations true)")
 	s.send("(set-option :produce-models true)")
 	if kind != "cvc5" {
-		s.send(fmt.Sprintf("(set-option :timeout %d)", timeoutMs))
+		s.send(fmt.Sprintf("(set-option :timeout %d)", s.FastMs))
 	} else {
 		s.send("(set-logic QF_BV)")
 	}
@@ -84,6 +93,12 @@ func (s *Solver) Close() {
 		s.cmd.Process.Kill()
 		s.cmd.Wait()
 		s.cmd = nil
+	}
+	if s.fb != nil {
+		s.fbIn.Close()
+		s.fb.Process.Kill()
+		s.fb.Wait()
+		s.fb = nil
 	}
 }
 
@@ -133,7 +148,7 @@ func (s *Solver) define(t *Term) {
 
 // Check decides the conjunction of assumps. On Sat it returns a model of all
 // variables the factory knows.
-func (s *Solver) Check(assumps []*Term) (Result, Model) {
+func (s *Solver) checkIncremental(assumps []*Term) (Result, Model) {
 	if s.dead {
 		s.NUnknown++
 		return Unknown, nil
@@ -356,4 +371,171 @@ func CheckOneShot(kind, script string, timeoutS int) Result {
 		}
 	}
 	return Unknown
+}
+
+// Check decides the conjunction of assumps: first on the incremental
+// process under a short time limit, then (if that is inconclusive) one-shot
+// on a fresh solver context, which uses the solver's bit-blasting pipeline.
+func (s *Solver) Check(assumps []*Term) (Result, Model) {
+	for _, a := range assumps {
+		if a.IsFalse() {
+			s.NUnsat++
+			return Unsat, nil
+		}
+	}
+	if s.FastMs > 0 && !s.dead {
+		r, m := s.checkIncremental(assumps)
+		if r != Unknown {
+			return r, m
+		}
+		s.NUnknown-- // not final
+	}
+	return s.checkOneShot(assumps)
+}
+
+func (s *Solver) startFallback() error {
+	kind := s.FallbackKind
+	if kind == "" {
+		kind = "z3-new"
+	}
+	cmd := exec.Command(kind, "-in", "-smt2")
+	in, err := cmd.StdinPipe()
+	if err != nil {
+		return err
+	}
+	outp, err := cmd.StdoutPipe()
+	if err != nil {
+		return err
+	}
+	if err := cmd.Start(); err != nil {
+		return err
+	}
+	s.fb, s.fbIn, s.fbOut = cmd, in, bufio.NewReaderSize(outp, 1<<20)
+	return nil
+}
+
+func (s *Solver) checkOneShot(assumps []*Term) (Result, Model) {
+	if s.fb == nil {
+		if err := s.startFallback(); err != nil {
+			s.NUnknown++
+			return Unknown, nil
+		}
+	}
+	s.NFallback++
+	var sb strings.Builder
+	sb.WriteString("(reset)\n(set-option :print-success false)\n(set-option :produce-models true)\n")
+	fmt.Fprintf(&sb, "(set-option :timeout %d)\n", s.TimeoutMs)
+	// cone of influence
+	seen := map[int]bool{}
+	var order []*Term
+	var stack []*Term
+	for _, a := range assumps {
+		stack = append(stack, a)
+	}
+	for len(stack) > 0 {
+		t := stack[len(stack)-1]
+		stack = stack[:len(stack)-1]
+		if t.Op == OpConst || seen[t.ID] {
+			continue
+		}
+		seen[t.ID] = true
+		order = append(order, t)
+		stack = append(stack, t.Args...)
+	}
+	sort.Slice(order, func(i, j int) bool { return order[i].ID < order[j].ID })
+	var vars []*Term
+	for _, t := range order {
+		if t.Op == OpVar {
+			vars = append(vars, t)
+			fmt.Fprintf(&sb, "(declare-const |%s| %s)\n", t.Name, sortOf(t))
+		} else {
+			fmt.Fprintf(&sb, "(define-fun t%d () %s %s)\n", t.ID, sortOf(t), body(t))
+		}
+	}
+	for _, a := range assumps {
+		if a.IsTrue() {
+			continue
+		}
+		fmt.Fprintf(&sb, "(assert %s)\n", ref(a))
+	}
+	sb.WriteString("(check-sat)\n")
+	t0 := time.Now()
+	io.WriteString(s.fbIn, sb.String())
+	line, err := readLineFrom(s.fbOut)
+	s.Time += time.Since(t0)
+	if err != nil {
+		s.fb.Process.Kill()
+		s.fb.Wait()
+		s.fb = nil
+		s.NUnknown++
+		return Unknown, nil
+	}
+	switch strings.TrimSpace(line) {
+	case "unsat":
+		s.NUnsat++
+		return Unsat, nil
+	case "sat":
+		s.NSat++
+		if len(vars) == 0 {
+			return Sat, Model{}
+		}
+		var names []string
+		for _, v := range vars {
+			names = append(names, ref(v))
+		}
+		io.WriteString(s.fbIn, "(get-value ("+strings.Join(names, " ")+"))\n")
+		txt, err := readSexpFrom(s.fbOut)
+		if err != nil {
+			s.NUnknown++
+			return Unknown, nil
+		}
+		return Sat, parseModel(txt)
+	}
+	s.NUnknown++
+	return Unknown, nil
+}
+
+func readLineFrom(r *bufio.Reader) (string, error) {
+	for {
+		line, err := r.ReadString('\n')
+		if err != nil {
+			return "", err
+		}
+		if strings.TrimSpace(line) == "" {
+			continue
+		}
+		return line, nil
+	}
+}
+
+func readSexpFrom(r *bufio.Reader) (string, error) {
+	var sb strings.Builder
+	depth := 0
+	started := false
+	inBar := false
+	for {
+		c, err := r.ReadByte()
+		if err != nil {
+			return "", err
+		}
+		sb.WriteByte(c)
+		if inBar {
+			if c == '|' {
+				inBar = false
+			}
+			continue
+		}
+		switch c {
+		case '|':
+			inBar = true
+		case '(':
+			depth++
+			started = true
+		case ')':
+			depth--
+			if started && depth == 0 {
+				return sb.String(), nil
+			}
+		}
+	}
 }
